@@ -224,12 +224,17 @@ size_t carquet_bitunpack_32(const uint8_t* input, size_t count,
 
     /* Handle remaining values */
     if (i < count) {
+        /* A partial group occupies only packed_size(rem) bytes: unpack it
+         * from a zero-padded copy instead of reading a full group */
         uint32_t temp[8];
-        carquet_bitunpack8_32(input + bytes_consumed, bit_width, temp);
+        uint8_t tail[32] = {0};
+        size_t tail_bytes = carquet_packed_size(count - i, bit_width);
+        memcpy(tail, input + bytes_consumed, tail_bytes);
+        carquet_bitunpack8_32(tail, bit_width, temp);
         for (size_t j = 0; j < count - i; j++) {
             values[i + j] = temp[j];
         }
-        bytes_consumed += carquet_packed_size(count - i, bit_width);
+        bytes_consumed += tail_bytes;
     }
 
     return bytes_consumed;
@@ -306,7 +311,10 @@ size_t carquet_bitpack_32(const uint32_t* values, size_t count,
             temp[j] = values[i + j];
         }
         size_t remaining_bytes = carquet_packed_size(count - i, bit_width);
-        carquet_bitpack8_32(temp, bit_width, output + bytes_written);
+        /* Pack into a scratch group and copy only the bytes reported */
+        uint8_t tail[32];
+        carquet_bitpack8_32(temp, bit_width, tail);
+        memcpy(output + bytes_written, tail, remaining_bytes);
         bytes_written += remaining_bytes;
     }
 
